@@ -1,6 +1,7 @@
 (* C09 - a precompiled profile is equivalent to its source and is reusable.
    Statements only; proofs in Proofs/PipelineProofs.v.  For all stage oracles (functions of their inputs). *)
 From ACV Require Import Base.Strs Model.Pipeline Model.PipelineRef Proofs.PipelineProofs Extracted.PipelineFacts.
+From ACV Require Model.Interleave Proofs.InterleaveProofs.
 Local Open Scope list_scope.
 
 (* ties: validating from text IS compiling and then validating with the compiled profile *)
@@ -38,8 +39,24 @@ Theorem C09_position_irrelevant : forall rc q c (h1 h2 : list Data) d,
 Proof. intros. apply C09_history_prefix_irrelevant. Qed.
 End C09.
 
+(* the heap-level reading (Model/Interleave.v): the calls of a history made one after the other, each a program of steps over
+   ITS OWN state (what the classification of the package-level variables, C10_tie_globals, says of the real calls) - whatever the
+   earlier calls did, call number i ends in the state it reaches by itself; and the same for every interleaving of the calls, not
+   only the sequential one *)
+Module I := Interleave.
+Module IP := InterleaveProofs.
+Theorem C09_history_call_as_alone : forall (P : Type) (calls : list (list (I.op P))) (w : I.world P) i,
+  IP.no_gen P (nth i calls []) = true ->
+  I.priv (I.run w (IP.history P calls)) i = I.alone (I.priv w i) (nth i calls []) [].
+Proof. exact IP.history_call_as_alone. Qed.
+Theorem C09_any_interleaving_call_as_alone : forall (P : Type) (s : I.schedule P) (w : I.world P) t,
+  IP.no_gen P (I.program_of t s) = true -> I.priv (I.run w s) t = I.alone (I.priv w t) (I.program_of t s) [].
+Proof. exact IP.validation_noninterference. Qed.
+
 Print Assumptions C09_tie_validate_is_compile_then_validate.
 Print Assumptions C09_equiv.
 Print Assumptions C09_events.
 Print Assumptions C09_reusable.
 Print Assumptions C09_position_irrelevant.
+Print Assumptions C09_history_call_as_alone.
+Print Assumptions C09_any_interleaving_call_as_alone.
